@@ -46,8 +46,7 @@ def gen_case(seed, i, engine, n_rounds):
 
 
 def native_compact_case(seed, i, engine):
-    """the native Compact handler (pkg/server/brain) over a SLOW engine (the handler's first point read of the compaction record
-    takes 300 ms): once the handler has answered, the compaction at R is accepted - range reads, streams and counts below R
+    """the native Compact handler (pkg/server/brain) over a SLOW engine (the commit of the compaction record takes 300 ms): once the handler has answered, the compaction at R is accepted - range reads, streams and counts below R
     through either way in are refused from then on. (A handler that answers before the record is written would serve them.)"""
     r = rng_for(seed, "c08n/%d" % i)
     keys = r.sample(KEY_POOL, r.randint(3, 5))
@@ -57,7 +56,7 @@ def native_compact_case(seed, i, engine):
     R = r.randint(hist.INIT + 3, sh.dealt)
     a, b = hx(PREFIX + b"/"), hx(PREFIX + b"0")
     below = R - r.randint(1, 2)
-    lines += ["rev", "getdelay 300", "ncompact %d" % R, "nrange %s %s %d 0" % (a, b, below), "list %s %s %d 3" % (a, b, below),
+    lines += ["rev", "commitdelay 300", "ncompact %d" % R, "nrange %s %s %d 0" % (a, b, below), "list %s %s %d 3" % (a, b, below),
               "nstream %s %s %d" % (a, b, below), "floor", "nrange %s %s %d 0" % (a, b, R)]
     return core.Case("native", lines, {"engine": engine, "native_compact": R})
 
